@@ -397,5 +397,5 @@ var _ = kit.Register(kit.Prop[Case]{
 	Name: "ValidatorSetInvariants",
 	Rule: "histories of up to ~75 operations on one StateDB: the validator operations replay the staking callers (create, update, deposit, withdraw, status change, delegation add/sub incl. forced offline, rewards, settlement, expel with self penalty, recover, withdraw queue), mixed with account operations, Snapshot/RevertToSnapshot of any live id, Finalise, IntermediateRoot, Copy (continue on the copy), Commit with reopen on the same database or on a disk copy; after EVERY executed operation the statistics (per role and kind: online/offline stake, token, count), GetStakeByKind/GetCountOfKind, token and stake sums, stake = token/StakeUnit for self and each delegation, sorted duplicate-free delegation lists, address index = existing validators, delegator<->validator links both ways and delegation balances are recomputed from the records; after every Commit also through NewVldReader with integrity check; non-trivial = a status, a stake across a StakeUnit boundary or a delegation changed AND the history reverts a validator-journal entry, copies or commits; distinct = FNV-64 of the case JSON",
 	Gen:  genCase, Run: runCase,
-	Quick: 4000, Thorough: 80000, Chunk: 500, MinNonTrivialPct: 30,
+	Quick: 8000, Thorough: 60000, Chunk: 500, MinNonTrivialPct: 30,
 })
